@@ -33,10 +33,10 @@ def snapshot(root):
 
 def populate(root, variant):
     """pre-existing contents; variant selects which near-miss names exist where"""
-    for d in ('in', 'cwd', 'out', 'out/sub', 'out/sub.d', 'elsewhere', 'out/' + LONGDIR):
+    for d in ('in', 'cwd', 'out', 'out/sub', 'out/sub.d', 'elsewhere', 'out/' + LONGDIR, 'out/' + LONGDIR + '/' + 'M' * 60):
         os.makedirs(os.path.join(root, d), exist_ok=True)
     os.symlink('out', os.path.join(root, 'lnk'))
-    dirs = ['out', 'out/sub', 'out/sub.d', 'elsewhere', 'cwd', 'out/' + LONGDIR]
+    dirs = ['out', 'out/sub', 'out/sub.d', 'elsewhere', 'cwd', 'out/' + LONGDIR, 'out/' + LONGDIR + '/' + 'M' * 60]
     for di, d in enumerate(dirs):
         for ni, n in enumerate(NEAR):
             if variant == 0 or (variant == 1 and (ni + di) % 2 == 0) or (variant == 2 and (ni + di) % 3 == 0):
@@ -51,6 +51,7 @@ def populate(root, variant):
 OUTSHAPES = [('out', 'out.c'), ('out', './out.c'), ('out', '../out/out.c'), ('out', 'sub/out.c'), ('cwd', 'ABS/out/out.c'), ('out', 'outx'), ('out', 'out.tar.c'),
              ('out', LONGDIR + '/out.c'), ('cwd', '../lnk/out.c'), ('cwd', '../out/sub/a_rather_long_basename_for_the_output_file.c'), ('out', 'sub/../out.c'),
              # no extension in the file name while a DIRECTORY component contains a dot
+             ('out', LONGDIR + '/' + 'M' * 60 + '/out.c'),      # the directory part of a RELATIVE output path is longer than 255 bytes
              ('out', './outx'), ('cwd', '../out/outx'), ('out', 'sub.d/outx'), ('cwd', 'ABS/out/sub.d/outx'), ('out', 'sub.d/out.c')]
 
 
